@@ -2,7 +2,9 @@
 // deterministic scheduler (every atomic op of the table code is a scheduling point; extra K_USER points sit in the hash
 // functor (before the first SIMD group load), in the key equality (between the group load + acquire fence and the slot
 // read) and at the start of the element constructor (between CAS EMPTY->BUSY and the construction)).
-// stdin lines:  <case-id> <sched-seed> <strategy> <mode> <cap> <hashes|-> <prefill|-> <program> <choices|->
+// stdin lines:  <case-id> <sched-seed> <strategy> <mode> <cap> <hashes|-> <prefill|-> <program> <choices|-> [<setup|->]
+//   setup   = keys emplaced sequentially and then clear()ed before everything else (a container that was used before);
+//             lower-case mode x / s / m = the same containers over TRIVIALLY DESTRUCTIBLE element types
 //   mode    = X ConcurrentFixedSwissTable<Elem,HF> | S ConcurrentTransientHashSet<Elem,HF> | M ConcurrentTransientHashMap<Key,Val,HF>
 //   cap     = min_bucket_count, or D = default constructor (placeholder head)
 //   hashes  = k:h,k:h,...  harness-chosen hash of key k (decimal); other keys hash to (k*131+7) % 1048576
@@ -49,34 +51,42 @@ static uint64_t hash_of(int k) {
   return it != g_hash->end() ? it->second : (uint64_t)((k * 131 + 7) % 1048576);
 }
 
-struct Elem {
-  int id; int val; volatile uint32_t magic; mutable bool moved = false;
-  Elem(int i, int v) : id(i), val(v), magic(MAGIC) {}
-  Elem(Elem&& o) noexcept {
-    upoint(__LINE__); slow_ctor();
-    if (o.moved) { g_double_consume = true; note("argument consumed twice"); }
-    id = o.id; val = o.val; o.moved = true; magic = MAGIC; (*g_ctor)[this]++;
-  }
-  Elem(const Elem& o) noexcept { upoint(__LINE__); id = o.id; val = o.val; magic = MAGIC; (*g_ctor)[this]++; }
-  ~Elem() { if (g_ctor->count(this)) (*g_dtor)[this]++; magic = 0; }
-  // the table calls  E::extract(at(index)) == key : the left operand is the stored element
-  friend bool operator==(const Elem& stored, const Elem& key) noexcept {
-    upoint(__LINE__);
-    if (stored.magic != MAGIC) { g_read_raw = true; note("key comparison read a slot that is not constructed"); }
-    return stored.id == key.id;
-  }
-};
-struct Key {
-  int id; volatile uint32_t magic;
-  Key(int i) : id(i), magic(MAGIC) {}
-  Key(const Key& o) noexcept { upoint(__LINE__); slow_ctor(); id = o.id; magic = MAGIC; (*g_ctor)[this]++; }
-  ~Key() { if (g_ctor->count(this)) (*g_dtor)[this]++; magic = 0; }
-  friend bool operator==(const Key& stored, const Key& key) noexcept {
-    upoint(__LINE__);
-    if (stored.magic != MAGIC) { g_read_raw = true; note("key comparison read a slot that is not constructed"); }
-    return stored.id == key.id;
-  }
-};
+// element / key / mapped types, twice: with a (tracking) destructor, and trivially destructible (no destructor at all: a
+// slot of a previous generation keeps its bytes after clear())
+#define C03_ELEM(NAME, DTOR)                                                                                          \
+  struct NAME {                                                                                                       \
+    int id; int val; volatile uint32_t magic; mutable bool moved = false;                                             \
+    NAME(int i, int v) : id(i), val(v), magic(MAGIC) {}                                                               \
+    NAME(NAME&& o) noexcept {                                                                                         \
+      upoint(__LINE__); slow_ctor();                                                                                  \
+      if (o.moved) { g_double_consume = true; note("argument consumed twice"); }                                      \
+      id = o.id; val = o.val; o.moved = true; magic = MAGIC; (*g_ctor)[this]++;                                       \
+    }                                                                                                                 \
+    NAME(const NAME& o) noexcept { upoint(__LINE__); id = o.id; val = o.val; magic = MAGIC; (*g_ctor)[this]++; }      \
+    DTOR                                                                                                              \
+    /* the table calls  E::extract(at(index)) == key : the left operand is the stored element */                     \
+    friend bool operator==(const NAME& stored, const NAME& key) noexcept {                                            \
+      upoint(__LINE__);                                                                                               \
+      if (stored.magic != MAGIC) { g_read_raw = true; note("key comparison read a slot that is not constructed"); }   \
+      return stored.id == key.id;                                                                                     \
+    }                                                                                                                 \
+  };
+#define C03_KEY(NAME, DTOR)                                                                                           \
+  struct NAME {                                                                                                       \
+    int id; volatile uint32_t magic;                                                                                  \
+    NAME(int i) : id(i), magic(MAGIC) {}                                                                              \
+    NAME(const NAME& o) noexcept { upoint(__LINE__); slow_ctor(); id = o.id; magic = MAGIC; (*g_ctor)[this]++; }      \
+    DTOR                                                                                                              \
+    friend bool operator==(const NAME& stored, const NAME& key) noexcept {                                            \
+      upoint(__LINE__);                                                                                               \
+      if (stored.magic != MAGIC) { g_read_raw = true; note("key comparison read a slot that is not constructed"); }   \
+      return stored.id == key.id;                                                                                     \
+    }                                                                                                                 \
+  };
+C03_ELEM(Elem, ~Elem() { if (g_ctor->count(this)) (*g_dtor)[this]++; magic = 0; })
+C03_ELEM(TElem, )
+C03_KEY(Key, ~Key() { if (g_ctor->count(this)) (*g_dtor)[this]++; magic = 0; })
+C03_KEY(TKey, )
 struct Val {
   int val; mutable bool moved = false;
   Val() : val(tl_cur_v) {}
@@ -84,14 +94,14 @@ struct Val {
   Val(Val&& o) noexcept { if (o.moved) { g_double_consume = true; note("argument consumed twice"); } val = o.val; o.moved = true; }
   Val(const Val& o) noexcept : val(o.val) {}
 };
+static_assert(!std::is_trivially_destructible<Elem>::value && std::is_trivially_destructible<TElem>::value, "element kinds");
+static_assert(std::is_trivially_destructible<std::pair<const TKey, Val>>::value && !std::is_trivially_destructible<std::pair<const Key, Val>>::value, "map element kinds");
 struct HF {
   size_t operator()(const Elem& e) const noexcept { upoint(__LINE__); return hash_of(e.id); }
+  size_t operator()(const TElem& e) const noexcept { upoint(__LINE__); return hash_of(e.id); }
   size_t operator()(const Key& k) const noexcept { upoint(__LINE__); return hash_of(k.id); }
+  size_t operator()(const TKey& k) const noexcept { upoint(__LINE__); return hash_of(k.id); }
 };
-
-using Fixed = ConcurrentFixedSwissTable<Elem, HF>;
-using Set = ConcurrentTransientHashSet<Elem, HF>;
-using Map = ConcurrentTransientHashMap<Key, Val, HF>;
 
 struct Op { char k; int key; int v; std::string res; uint64_t b = 0, e = 0; const void* addr = nullptr; int ins = -1; bool full = false;
             bool arg_moved = false; int seen_id = 0, seen_v = 0; bool seen_ok = true; bool pre = false; bool after = false; };
@@ -116,8 +126,19 @@ static void aligned_free(void* p) {
 void operator delete(void* p, std::align_val_t) noexcept { aligned_free(p); }
 void operator delete(void* p, size_t, std::align_val_t) noexcept { aligned_free(p); }
 
-struct Runner {
-  char mode; bool dflt; size_t cap;
+template <class Elem, class Key, class Val, bool TRIVIAL>
+struct RunnerT {
+  using Fixed = ConcurrentFixedSwissTable<Elem, HF>;
+  using Set = ConcurrentTransientHashSet<Elem, HF>;
+  using Map = ConcurrentTransientHashMap<Key, Val, HF>;
+  using MBase = ConcurrentTransientHashSet<std::pair<const Key, Val>, HF, internal::concurrent_transient_hash_table::PairKeyExtractor<Key, Val>>;
+  static constexpr bool trivial = TRIVIAL;
+  char mode; bool dflt; size_t cap;   // mode: X S M (upper case)
+  void clear() { if (fx) fx->clear(); if (st) st->clear(); if (mp) mp->clear(); }
+  static void sizes(std::set<size_t>* sz) {
+    sz->insert(sizeof(typename Set::TableNode)); sz->insert(sizeof(typename MBase::TableNode));
+    for (size_t bc = 16; bc <= 65536; bc <<= 1) { sz->insert(Fixed::calculate_allocate_size(bc)); sz->insert(MBase::Table::calculate_allocate_size(bc)); }
+  }
   Fixed* fx = nullptr; Set* st = nullptr; Map* mp = nullptr;
   void create() {
     if (mode == 'X') fx = dflt ? new Fixed() : new Fixed(cap);
@@ -144,14 +165,14 @@ struct Runner {
       Key key(op.key);
       if (op.k == 'B') {
         Val& v = (*mp)[key];
-        op.addr = reinterpret_cast<const char*>(&v) - offsetof(Map::value_type, second);
-        auto* p = reinterpret_cast<const Map::value_type*>(op.addr);
+        op.addr = reinterpret_cast<const char*>(&v) - offsetof(typename Map::value_type, second);
+        auto* p = reinterpret_cast<const typename Map::value_type*>(op.addr);
         op.ins = -1; op.seen_id = p->first.id; op.seen_v = v.val; op.seen_ok = p->first.magic == MAGIC;
         return;
       }
       Val val(op.v);
-      std::pair<Map::iterator, bool> r;
-      if (op.k == 'I') { Map::value_type pr(key, Val(op.v)); r = mp->insert(static_cast<const Map::value_type&>(pr)); }
+      std::pair<typename Map::iterator, bool> r;
+      if (op.k == 'I') { typename Map::value_type pr(key, Val(op.v)); r = mp->insert(static_cast<const typename Map::value_type&>(pr)); }
       else if (op.k == 'T') r = mp->try_emplace(key, std::move(val));
       else r = mp->emplace(key, std::move(val));
       if (r.first == mp->end()) { op.full = true; op.ins = 0; return; }
@@ -185,8 +206,7 @@ struct Runner {
     } else {
       for (auto it = mp->begin(); it != mp->end(); ++it) { elems.push_back({it->first.id, it->second.val}); addrs.push_back(&*it); }
       size = mp->size();
-      using Base = ConcurrentTransientHashSet<std::pair<const Key, Val>, HF, internal::concurrent_transient_hash_table::PairKeyExtractor<Key, Val>>;
-      Base* b = mp;
+      MBase* b = mp;
       for (auto* n = &b->_head; n; n = n->next.load()) {
         tabs += (tabs.empty() ? "" : "+") + std::string(n->table._values == nullptr ? "d" : "") + std::to_string(n->table.bucket_count());
         if (n->table._values) ranges.push_back({(const char*)n->table._values, (const char*)(n->table._values + n->table.bucket_count())});
@@ -195,31 +215,25 @@ struct Runner {
   }
 };
 
-int main() {
-  static char line[1 << 16];
-  g_hash = new std::map<int, uint64_t>(); g_ctor = new std::map<const void*, int>(); g_dtor = new std::map<const void*, int>();
-  g_first = new std::string();
-  {
-    using MBase = ConcurrentTransientHashSet<std::pair<const Key, Val>, HF, internal::concurrent_transient_hash_table::PairKeyExtractor<Key, Val>>;
-    auto* sz = new std::set<size_t>(); g_live = new std::map<void*, size_t>();
-    sz->insert(sizeof(Set::TableNode)); sz->insert(sizeof(MBase::TableNode));
-    for (size_t bc = 16; bc <= 65536; bc <<= 1) { sz->insert(Fixed::calculate_allocate_size(bc)); sz->insert(MBase::Table::calculate_allocate_size(bc)); }
-    g_sizes = sz;
-  }
-  while (fgets(line, sizeof line, stdin)) {
-    std::stringstream ls(line);
-    std::string id, mode, cap, hashes, prefill, prog, choices; unsigned long long seed; int strategy;
-    if (!(ls >> id >> seed >> strategy >> mode >> cap >> hashes >> prefill >> prog >> choices)) continue;
-    g_hash->clear(); g_ctor->clear(); g_dtor->clear(); g_read_raw = false; g_double_consume = false; g_first->clear();
-    if (hashes != "-") { std::stringstream hs(hashes); std::string kv; while (std::getline(hs, kv, ',')) { auto c = kv.find(':'); (*g_hash)[atoi(kv.c_str())] = strtoull(kv.c_str() + c + 1, nullptr, 10); } }
-    std::vector<std::vector<Op>> threads;
-    { std::stringstream ss(prog); std::string th; int t = 0;
-      while (std::getline(ss, th, '|')) { std::vector<Op> ops; std::stringstream s2(th); std::string o; int i = 0;
-        while (std::getline(s2, o, ',')) if (!o.empty()) { Op op; op.k = o[0]; op.key = atoi(o.c_str() + 1); op.v = 100 * (t + 1) + i; ops.push_back(op); ++i; }
-        threads.push_back(ops); ++t; } }
+struct Case { std::string id, mode, cap, prefill, prog, choices, setup; unsigned long long seed; int strategy; };
+
+template <class R_>
+static void run_case(const Case& cs_, std::vector<std::vector<Op>>& threads) {
+    const std::string &id = cs_.id, &mode = cs_.mode, &cap = cs_.cap, &prefill = cs_.prefill, &prog = cs_.prog, &choices = cs_.choices, &setup = cs_.setup;
+    unsigned long long seed = cs_.seed; int strategy = cs_.strategy;
     size_t aligned0 = g_live->size();
-    Runner R; R.mode = mode[0]; R.dflt = cap == "D"; R.cap = R.dflt ? 0 : strtoul(cap.c_str(), nullptr, 10);
+    R_ R; R.mode = (char)toupper(mode[0]); R.dflt = cap == "D"; R.cap = R.dflt ? 0 : strtoul(cap.c_str(), nullptr, 10);
     R.create();
+    if (setup != "-") {
+      // a previous generation: keys emplaced sequentially (value 8000+k), then clear(); the client program runs on the
+      // cleared container (the model starts from a fresh table of the resulting capacity)
+      std::vector<Op> su; std::stringstream ps(setup); std::string k;
+      while (std::getline(ps, k, ',')) { Op op; op.k = 'E'; op.key = atoi(k.c_str()); op.v = 8000 + op.key; su.push_back(op); }
+      std::vector<std::function<void()>> pb; pb.push_back([&] { for (auto& op : su) R.emplace_like(op); R.clear(); });
+      verif::Options po; po.seed = 1; po.strategy = 0; po.max_steps = 200000;
+      verif::run(pb, po);
+      g_ctor->clear(); g_dtor->clear();
+    }
     std::vector<Op> pre;
     if (prefill != "-") {
       std::stringstream ps(prefill); std::string k;
@@ -269,7 +283,7 @@ int main() {
     std::vector<std::pair<const char*, const char*>> ranges;
     R.final_state(elems, addrs, size, tabs, ranges);
     // ---------------------------------------------------------------- monitors (the property text, on the real run)
-    bool winner = true, same = true, visible = true, ctor1 = true, noconsume = true, fullok = true, nodrop = true, nodup = true, sizeok = true;
+    bool phantom = true, winner = true, same = true, visible = true, ctor1 = true, noconsume = true, fullok = true, nodrop = true, nodup = true, sizeok = true;
     std::map<int, int> final_count; std::map<int, const void*> final_addr; std::map<int, int> final_val;
     for (size_t i = 0; i < elems.size(); ++i) { final_count[elems[i].first]++; final_addr[elems[i].first] = addrs[i]; final_val[elems[i].first] = elems[i].second; }
     for (auto& kv : by_key) {
@@ -295,6 +309,12 @@ int main() {
           bool miss = (f->k == 'C') ? f->ins == 0 : (f->k == 'F') ? f->addr == nullptr : (f->full || f->ins == 1);
           if (miss) { visible = false; note("operation " + std::string(1, f->k) + std::to_string(k) + " started after an insertion of the key had returned, yet missed it"); }
         }
+      }
+      // a lookup returned an element although no insertion of the key had even begun (stale / foreign element)
+      for (Op* f : kv.second) if ((f->k == 'F' && f->addr) || (f->k == 'C' && f->ins == 1)) {
+        bool begun = false;
+        for (Op* a : kv.second) if (a->k != 'F' && a->k != 'C' && (a->pre || a->b < f->e)) begun = true;
+        if (!begun) { phantom = false; note("lookup of key " + std::to_string(k) + " returned an element although no insertion of it had begun"); }
       }
       if (any_slot) {
         if (final_count[k] == 0) { nodrop = false; note("key " + std::to_string(k) + " was inserted but is not in the final iteration"); }
@@ -329,12 +349,38 @@ int main() {
     R.destroy();
     bool dtor = true, leak = true;
     for (auto& c : *g_ctor) { bool in = false; for (auto& rg : ranges) in |= ((const char*)c.first >= rg.first && (const char*)c.first < rg.second);
-      if (in && (*g_dtor)[c.first] != c.second) { dtor = false; note("element destroyed " + std::to_string((*g_dtor)[c.first]) + " times"); } }
+      if (!R_::trivial && in && (*g_dtor)[c.first] != c.second) { dtor = false; note("element destroyed " + std::to_string((*g_dtor)[c.first]) + " times"); } }
     if (g_live->size() != aligned0) { leak = false; note("table buffers / chained nodes leaked: " + std::to_string((long)g_live->size() - (long)aligned0)); g_live->clear(); }
-    printf("%s ok steps=%llu | %s fin=%s size=%zu tabs=%s | winner=%d same=%d visible=%d ctor=%d noconsume=%d fullok=%d nodrop=%d nodup=%d size=%d dtor=%d leak=%d%s%s\n",
-           id.c_str(), (unsigned long long)r.steps, out.c_str(), fin.empty() ? "-" : fin.c_str(), n_elems, tabs.c_str(), winner, same, visible, ctor1, noconsume, fullok,
+    printf("%s ok steps=%llu | %s fin=%s size=%zu tabs=%s | phantom=%d winner=%d same=%d visible=%d ctor=%d noconsume=%d fullok=%d nodrop=%d nodup=%d size=%d dtor=%d leak=%d%s%s\n",
+           id.c_str(), (unsigned long long)r.steps, out.c_str(), fin.empty() ? "-" : fin.c_str(), n_elems, tabs.c_str(), phantom, winner, same, visible, ctor1, noconsume, fullok,
            nodrop, nodup, sizeok, dtor, leak, g_first->empty() ? "" : " ! ", g_first->c_str());
     fflush(stdout);
+}
+
+int main() {
+  static char line[1 << 16];
+  g_hash = new std::map<int, uint64_t>(); g_ctor = new std::map<const void*, int>(); g_dtor = new std::map<const void*, int>();
+  g_first = new std::string();
+  {
+    auto* sz = new std::set<size_t>(); g_live = new std::map<void*, size_t>();
+    RunnerT<Elem, Key, Val, false>::sizes(sz); RunnerT<TElem, TKey, Val, true>::sizes(sz);
+    g_sizes = sz;
+  }
+  while (fgets(line, sizeof line, stdin)) {
+    std::stringstream ls(line);
+    std::string id, mode, cap, hashes, prefill, prog, choices, setup = "-"; unsigned long long seed; int strategy;
+    if (!(ls >> id >> seed >> strategy >> mode >> cap >> hashes >> prefill >> prog >> choices)) continue;
+    if (!(ls >> setup)) setup = "-";
+    g_hash->clear(); g_ctor->clear(); g_dtor->clear(); g_read_raw = false; g_double_consume = false; g_first->clear();
+    if (hashes != "-") { std::stringstream hs(hashes); std::string kv; while (std::getline(hs, kv, ',')) { auto c = kv.find(':'); (*g_hash)[atoi(kv.c_str())] = strtoull(kv.c_str() + c + 1, nullptr, 10); } }
+    std::vector<std::vector<Op>> threads;
+    { std::stringstream ss(prog); std::string th; int t = 0;
+      while (std::getline(ss, th, '|')) { std::vector<Op> ops; std::stringstream s2(th); std::string o; int i = 0;
+        while (std::getline(s2, o, ',')) if (!o.empty()) { Op op; op.k = o[0]; op.key = atoi(o.c_str() + 1); op.v = 100 * (t + 1) + i; ops.push_back(op); ++i; }
+        threads.push_back(ops); ++t; } }
+    Case cs_{id, mode, cap, prefill, prog, choices, setup, seed, strategy};
+    if (islower((unsigned char)mode[0])) run_case<RunnerT<TElem, TKey, Val, true>>(cs_, threads);
+    else run_case<RunnerT<Elem, Key, Val, false>>(cs_, threads);
   }
   return 0;
 }
